@@ -245,7 +245,9 @@ def _chunk(args):
             agg["errors"].append(str(e)[:800])
             _note_error()
             continue
-        except Exception:
+        except (KeyboardInterrupt, SystemExit):
+            raise
+        except BaseException:  # noqa: BLE001 - also a work-budget exception (BaseException by design) that no scenario-level handler took
             agg["errors"].append("index %d seed %d: %s" % (i, seed, traceback.format_exc()[-1500:]))
             _note_error()
             continue
